@@ -35,7 +35,8 @@ func c04Shapes() []*canon.Node {
 }
 
 // c04Run evaluates one AST in the four situations and reports escaping panics.
-func c04Run(c *fw.Ctx, base types.EnvType, id string, ast types.MalType, text string, class string, withFuture bool) {
+func c04Run(c *fw.Ctx, base types.EnvType, id string, ast types.MalType, text string, class string, withFuture bool, textRoute ...bool) {
+	isText := len(textRoute) > 0 && textRoute[0]
 	c.Case(id, text, func() {
 		c.Count("asts", 1)
 		c.Distinct("shapes", class)
@@ -89,6 +90,19 @@ func c04Run(c *fw.Ctx, base types.EnvType, id string, ast types.MalType, text st
 			return
 		}
 		c.Count("cancelled_ctx_runs", 1)
+		// 3b. the same form as text through REPL / REPLWithPreamble / ReadEvalWithPreamble (READ + EVAL + PRINT of the result)
+		if isText {
+			for ri, route := range []func(context.Context, types.EnvType, string, *types.Position) (types.MalType, error){lisp.REPL, lisp.REPLWithPreamble, lisp.ReadEvalWithPreamble} {
+				ctx, cancel = context.WithTimeout(context.Background(), 5*time.Second)
+				p, site, msg, st := fw.Guard(func() { _, _ = route(ctx, mk(), text, types.NewCursorFile("c04.lisp")) })
+				cancel()
+				if p {
+					c.Violate(fw.Violation{Key: "panic@" + site + ":" + []string{"REPL", "REPLWithPreamble", "ReadEvalWithPreamble"}[ri] + ":" + c04Head(class), What: "the text route let a Go panic escape: " + msg, Detail: st})
+					return
+				}
+			}
+			c.Count("repl_route_runs", 1)
+		}
 		// 4. inside a future (a panic there kills the process: attributed through the START/END log)
 		if withFuture {
 			fut := types.List{Val: []types.MalType{types.Symbol{Val: "deref"}, types.List{Val: []types.MalType{types.Symbol{Val: "future"}, ast}}}}
@@ -207,7 +221,7 @@ func runC04(c *fw.Ctx) {
 					x /= len(shapes)
 				}
 				ast := types.List{Val: append([]types.MalType{types.Symbol{Val: head}}, ops...)}
-				c04Run(c, base, fmt.Sprintf("form-%d", idx-1), ast, "("+head+" "+strings.Join(txt, " ")+")", fmt.Sprintf("%s/%d", head, n), k%7 == 0)
+				c04Run(c, base, fmt.Sprintf("form-%d", idx-1), ast, "("+head+" "+strings.Join(txt, " ")+")", fmt.Sprintf("%s/%d", head, n), k%7 == 0, k%5 == 0)
 				c.Count("kind.special-form", 1)
 			}
 		}
@@ -235,7 +249,7 @@ func runC04(c *fw.Ctx) {
 				} else {
 					form = l(append([]*canon.Node{fnF}, args...)...)
 				}
-				c04Run(c, base, fmt.Sprintf("params-%d", idx-1), canon.ToGo(form), canon.Render(form), fmt.Sprintf("params-%d/%d/%v", pi, nargs, macro), true)
+				c04Run(c, base, fmt.Sprintf("params-%d", idx-1), canon.ToGo(form), canon.Render(form), fmt.Sprintf("params-%d/%d/%v", pi, nargs, macro), true, true)
 				c.Count("kind.param-list", 1)
 			}
 		}
